@@ -126,6 +126,9 @@ fn segments() -> Vec<Seg> {
             (":.red", 0, '<'),
             (":5.red/blue", 5, '<'),
             (":05", 5, '<'),
+            // wider than the terminal the bar is drawn on (200 columns): still exactly W columns
+            (":300", 300, '<'),
+            (":>250!", 250, '>'),
         ] {
             v.push(Seg { text: format!("{{{key}{opt}}}"), out: Some(pad(content, width, align)), brk_after: false });
         }
@@ -185,7 +188,7 @@ fn fidelity(tier: Tier, shard: Shard, stats: &mut Stats) {
                     let l = l.replace('\t', &" ".repeat(tabw));
                     let rest = l.chars().filter(|c| *c != '\u{1}' && *c != '\u{2}').count();
                     let room = 200usize.saturating_sub(rest);
-                    l.replace('\u{1}', &"░".repeat(room)).replace('\u{2}', &format!("M{}", " ".repeat(room.saturating_sub(1))))
+                    l.replace('\u{1}', &"░".repeat(room)).replace('\u{2}', &if room == 0 { String::new() } else { format!("M{}", " ".repeat(room - 1)) })
                 })
                 .collect();
             let style = match catch(|| ProgressStyle::with_template(&tpl)) {
